@@ -62,7 +62,8 @@ var sliceHelpers = []sliceHelper{
 		return [][]int{r1, r2, r3}
 	}},
 	// one flipped function per scenario, called again and again: its results must stay independent
-	{"Flip", 0, func(a, b []int) [][]int { return [][]int{frameFlip(a...), frameFlip(b...)} }},
+	{"FlipA", 0, func(a, b []int) [][]int { return [][]int{frameFlip(a...)} }},
+	{"FlipB", 0, func(a, b []int) [][]int { return [][]int{frameFlip(b...)} }},
 	{"Map", 0, func(a, b []int) [][]int { return [][]int{gogu.Map(a, func(x int) int { return x + 1 })} }},
 	{"Chunk", 0, func(a, b []int) [][]int { return gogu.Chunk(a, 2) }},
 	{"Drop", 0, func(a, b []int) [][]int { return [][]int{gogu.Drop(a, 1), gogu.Drop(a, -1)} }},
